@@ -211,11 +211,21 @@ STDLIB_AXIOMS_OK = {
 
 
 def parse_failing(output: str):
-    """Parse `Eval vm_compute in (failing ...)` printed lists of nats: returns list of lists."""
+    """Parse `Eval vm_compute in (failing ...)` printed lists of nats: returns list of lists.
+    Fail-closed: a token that is not a number (after stripping a %nat scope suffix) is
+    reported as index -1, so an unparsable list can never be read as 'no failures'."""
     res = []
     for m in re.finditer(r"=\s*\[([^\]]*)\]\s*:\s*list nat", output.replace("\n", " ")):
         body = m.group(1).strip()
-        res.append([int(t) for t in re.split(r"[;\s]+", body) if t.strip().isdigit()] if body else [])
+        lst = []
+        if body:
+            for t in re.split(r"[;\s]+", body):
+                t = t.strip()
+                if not t:
+                    continue
+                t = re.sub(r"%nat$", "", t).strip("()")
+                lst.append(int(t) if t.isdigit() else -1)
+        res.append(lst)
     return res
 
 
